@@ -139,8 +139,10 @@ CHECKS = {
     "C08": dict(
         text="Lean: second pass of _unified_records as placeMerged: nothing lost (every source record is represented by itself or by its "
              "merged record), nothing invented, no duplicates, identity when nothing is merged (c08_nothing_lost, c08_nothing_invented, "
-             "c08_no_duplicates, c08_no_merge_identity). First pass (grouping by identifier URI and kind after the fix, merging through "
-             "copy/add_attributes) mirrored in the model; unified() of documents and bundles compared with an independent specification "
+             "c08_no_duplicates, c08_no_merge_identity). First pass, grouping by kind under one identifier (after the fix): c08_groupByKind_spec - "
+             "for every list of records each record lands in exactly one group, each group holds one kind, different groups have different "
+             "kinds and the group sizes add up to the list length; c08_same_group_iff_same_kind (two records are merged candidates iff they "
+             "have the same kind). Merging through copy/add_attributes is mirrored in the model (its content side is C09's re-creation theorem); unified() of documents and bundles compared with an independent specification "
              "(union of attributes, first-occurrence order, ProvException iff formal conflict), idempotence, source unchanged.",
         note=A_COMMON + " Known finding C08-1: unified() registers namespaces in a source bundle. Identified membership records are not claimed.",
         technique="Lean 4 list lemmas on the placement pass + op-sequence correspondence + independent unification spec",
